@@ -10,7 +10,7 @@ original raises is simply outside the domain and is discarded.
 """
 import ast
 
-PROBES = {"M", "C", "W", "R", "IT", "P", "L", "LO", "OBJ", "BOX", "SEQ", "MK", "KEYS", "DECO"}
+PROBES = {"M", "C", "W", "R", "IT", "GS", "P", "L", "LO", "OBJ", "BOX", "SEQ", "MK", "KEYS", "DECO"}
 MODES = ("falsy", "negative", "text", "empty")
 # (no "huge" mode: range(10**30), [0] * 10**30 etc. never return from C code and exhaust memory)
 
